@@ -153,7 +153,9 @@ pub trait TyObj: Sync + Send {
     #[allow(clippy::too_many_arguments)]
     fn sweep_kernel(&self, low: &[u8], high_api: &[u8], entry: crate::sweep::Entry, from: u64, to: u64, rng: &mut crate::simrng::SimRng, sink: &mut dyn FnMut(u64, u64, u32, u32) -> bool) -> Result<(), (u64, bool)>;
     /// fill a slice of `len` elements (initialised from `init`), returning (result, element bytes)
-    fn fill(&self, len: usize, init: u8, via: FillVia, rng: &mut crate::simrng::SimRng, dynamic: bool) -> (Result<(), ()>, Vec<Vec<u8>>);
+    /// `front` guard elements before and 2 after the filled sub-slice must keep their initial contents; the third
+    /// component says whether they did
+    fn fill(&self, len: usize, init: u8, front: usize, via: FillVia, rng: &mut crate::simrng::SimRng, dynamic: bool) -> (Result<(), ()>, Vec<Vec<u8>>, bool);
 }
 
 pub trait Sampler {
@@ -306,16 +308,21 @@ where
         }
         Ok(())
     }
-    fn fill(&self, len: usize, init: u8, via: FillVia, rng: &mut crate::simrng::SimRng, dynamic: bool) -> (Result<(), ()>, Vec<Vec<u8>>) {
+    fn fill(&self, len: usize, init: u8, front: usize, via: FillVia, rng: &mut crate::simrng::SimRng, dynamic: bool) -> (Result<(), ()>, Vec<Vec<u8>>, bool) {
         let initv = T::from_le(&vec![init; T::BYTES]);
-        let mut v = vec![initv; len];
-        let r = if dynamic {
-            let r: &mut dyn RngCore = rng;
-            T::fill(&mut v, via, r)
-        } else {
-            T::fill(&mut v, via, rng)
+        let initb = initv.to_le_vec();
+        let mut v = vec![initv; front + len + 2];
+        let r = {
+            let sub = &mut v[front..front + len];
+            if dynamic {
+                let r: &mut dyn RngCore = rng;
+                T::fill(sub, via, r)
+            } else {
+                T::fill(sub, via, rng)
+            }
         };
-        (r, v.iter().map(|x| x.to_le_vec()).collect())
+        let guards_intact = v[..front].iter().chain(v[front + len..].iter()).all(|x| x.to_le_vec() == initb);
+        (r, v[front..front + len].iter().map(|x| x.to_le_vec()).collect(), guards_intact)
     }
 }
 
